@@ -133,19 +133,31 @@ fn ref_class(r: &RefOutcome) -> &'static str {
     }
 }
 
-pub fn sweep(profile: Profile, n: usize, shard: usize, nshards: usize, styles: &[syntax::Style]) -> Report {
+pub fn sweep(profile: Profile, n: usize, sh: &util::Shard, styles: &[syntax::Style]) -> Report {
     let mut rep = Report::new();
     let mut batch: Vec<(u64, E)> = Vec::new();
     let mut process = |batch: &mut Vec<(u64, E)>, rep: &mut Report| {
         let arena = Arena::new();
         let mut p = Program::new(&arena);
         for (idx, e) in batch.drain(..) {
+            if !sh.begin_case(idx, &|| syntax::print(&e, styles[0])) {
+                continue;
+            }
             for (si, st) in styles.iter().enumerate() {
                 let src = syntax::print(&e, *st);
                 if trace_cases() {
                     eprintln!("CASE {src}");
                 }
-                let j = match util::catch(|| judge_on(&mut p, &e, &src)) {
+                let t0 = std::time::Instant::now();
+                let jr = util::catch(|| judge_on(&mut p, &e, &src));
+                let dt = t0.elapsed().as_secs_f64();
+                if dt > 0.25 {
+                    rep.count("slow_cases(>0.25s)", 1);
+                    if std::env::var("VERIF_LOG_SLOW").is_ok() {
+                        eprintln!("SLOW {dt:.2}s {src}");
+                    }
+                }
+                let j = match jr {
                     Ok(j) => j,
                     Err(m) => {
                         rep.violation(
@@ -196,7 +208,7 @@ pub fn sweep(profile: Profile, n: usize, shard: usize, nshards: usize, styles: &
             }
         }
     };
-    corpus::for_each_sharded(profile, n, shard, nshards, &mut |idx, e| {
+    corpus::for_each_sharded(profile, n, sh.index, sh.n, &mut |idx, e| {
         batch.push((idx, e));
         if batch.len() >= 500 {
             while !batch.is_empty() {
@@ -250,8 +262,14 @@ pub fn run(ctx: &Ctx) -> i32 {
             total.caps.insert(format!("time cap before profile {} n={}", profile.name, n));
             continue;
         }
-        let nshards = 64;
-        let r = util::par_shards(ctx.threads, nshards, |s, ns| sweep(profile, n, s, ns, &styles));
+        let nshards = if n >= 5 { 512 } else if n == 4 { 64 } else { 1 };
+        let cfg = util::ForkCfg {
+            threads: ctx.threads,
+            mem_bytes: std::env::var("VERIF_MEM_GB").ok().and_then(|s| s.parse::<u64>().ok()).unwrap_or(3) << 30,
+            case_timeout_s: 20,
+            died_signature: "C02/abort".into(),
+        };
+        let r = util::par_forked(&cfg, nshards, |sh| sweep(profile, n, sh, &styles));
         sizes.insert(format!("{}:{}", profile.name, n), json!(r.states));
         total.merge(r);
     }
